@@ -291,6 +291,9 @@ func (i *Inode) ReadAt(p []byte, off uint64) int {
 
 // WriteAt stores p at off, extending the file.
 func (i *Inode) WriteAt(p []byte, off uint64) int {
+	if len(p) == 0 {
+		return 0 // a zero-length write changes nothing, not even the size
+	}
 	if i.pages == nil {
 		i.pages = map[uint64][]byte{}
 	}
